@@ -168,9 +168,9 @@ def run(tier):
     cases, stats = opsfam.run_model(PROP, linalgfam.plan(tier, common.seed()))
     cases = [c for c in linalgfam.linalg_cases(cases) if c["nonsing"]]
     total = len(cases)
-    if tier == "quick" and len(cases) > 7000:   # level-1 cases all, deeper ones by a seeded stride
+    if tier == "quick" and len(cases) > 5000:   # level-1 cases all, deeper ones by a seeded stride
         deep = [c for c in cases if c["lvl"] > 1]
-        step = max(1, len(deep) // 4500)
+        step = max(1, len(deep) // 2200)
         cases = [c for c in cases if c["lvl"] <= 1] + deep[common.seed() % step::step]
     res = common.pmap(observe, cases, chunksize=8)
     viol = [v for r in res for v in r]
